@@ -48,6 +48,18 @@ def engine(E):
     for nm in ('create_task', 'ensure_future'):
         ns.attrs[nm] = VStub('asyncio.' + nm, (lambda n: lambda E_, a, k: _unsupp('asyncio.%s of one awaitable' % n))(nm))
 
+    def _any_all(name):
+        def fn(E_, a, k):
+            """any()/all() over the given awaitables: an Iterable may be one-shot -- looking at it consumes what
+            gather() should have got"""
+            if a and isinstance(a[0], VSeq):
+                E_.w['aws_touched'] = True
+                return VBool(z3.Length(a[0].t) > 0) if name == 'any' else VBool(True)
+            raise Unsupported('%s(%r)' % (name, a))
+        return VStub(name, fn)
+    Bn['any'] = _any_all('any')
+    Bn['all'] = _any_all('all')
+
     def _map(E_, a, k):
         """map(f, aws): lazy; only create_task / ensure_future over the given awaitables is understood"""
         if len(a) == 2 and isinstance(a[0], VStub) and a[0].name in ('asyncio.create_task', 'asyncio.ensure_future') \
@@ -104,6 +116,19 @@ def seq_loop(E, st, fr, R, inv_fn, label):
     return idx
 
 
+def default_only_obligation(E, fn, mod, qual):
+    """without `only` every failure counts: the default of the parameter is BaseException itself"""
+    names = [a.arg for a in fn.args.args]
+    d = None
+    if 'only' in names:
+        i = names.index('only') - (len(names) - len(fn.args.defaults))
+        d = fn.args.defaults[i] if i >= 0 else None
+    v = E.eval(d, Frame(None, mod, None, mod.name)) if d is not None else None
+    E.oblige(qual + '/default.only_is_BaseException', z3.BoolVal(v is EXC['BaseException']),
+             detail='a BaseException-only failure (CancelledError of a cancelled child, a custom BaseException) is a '
+                    'failure too')
+
+
 def t_gather_excs(E):
     engine(E)
     mod = E.modules['aiuti.asyncio']
@@ -156,7 +181,8 @@ def t_gather_excs(E):
         E.oblige(f.qualname + '/call.gathers_exactly_once', z3.BoolVal(len(g) == 1))
         if len(g) == 1:
             args, rex = g[0][1], g[0][2]
-            all_passed = len(args) == 1 and isinstance(args[0], VStar) and z3.eq(args[0].seq, aws)
+            all_passed = len(args) == 1 and isinstance(args[0], VStar) and z3.eq(args[0].seq, aws) and \
+                not E.w.get('aws_touched')
             E.oblige(f.qualname + '/call.every_given_awaitable_is_gathered', z3.BoolVal(bool(all_passed)))
             E.oblige(f.qualname + '/call.return_exceptions_is_True', z3.BoolVal(rex is True),
                      detail='a failure of one must not cancel or skip another')
@@ -164,6 +190,7 @@ def t_gather_excs(E):
         n = z3.Length(R)
         E.oblige(f.qualname + '/ensures.yields_exactly_the_matching_exceptions_in_input_order',
                  E.w['gen_out'] == F(R, only.term, n))
+        default_only_obligation(E, fn, mod, f.qualname)
     E.run_paths(body)
 
 
@@ -228,6 +255,7 @@ def t_raise_first_exc(E):
                      z3.And(z3.Length(S) > 0, ident == S[0]) if ident is not None else z3.BoolVal(False))
         E.oblige(f.qualname + '/call.only_is_forwarded', z3.BoolVal('S' in st and z3.eq(st['S'], S)),
                  detail='the stream iterated is gather_excs(aws, only) for the SAME aws and only')
+        default_only_obligation(E, fn, mod, f.qualname)
     E.run_paths(body)
 
 
